@@ -281,10 +281,14 @@ fn rand_literal(r: &mut Rng, level: usize, vars: &[&str], cuts: bool, depth: usi
         11 => format!("{} {} {}", vars[r.below(vars.len())], ["==", "<", ">=", ">", "<="][r.below(5)], if r.below(3) == 0 { vars[r.below(vars.len())].to_string() } else { CONSTS[r.below(CONSTS.len())].to_string() }),
         12 => format!("not({})", rand_call(r, level, vars)),
         13 => if r.below(3) == 0 { format!("not({} {} {})", vars[r.below(vars.len())], ["==", "<", ">=", ">", "<="][r.below(5)], CONSTS[r.below(CONSTS.len())]) } else { format!("not({})", rand_call(r, level, vars)) },
-        14 => if cuts { "!".to_string() } else { rand_call(r, level, vars) },
+        // (no cut inside a parenthesised group: there the engine also stops backtracking into the goals to the RIGHT of the cut once
+        //  control has left the group - the documented "disabled on the cut and all its ancestors" - which the textbook search does not;
+        //  DESIGN.md 8.26.  Cuts inside top-level alternatives are in the fixed programs of c02_cut.)
+        14 => if cuts && depth == 0 { "!".to_string() } else { rand_call(r, level, vars) },
         15 => "fail".to_string(),
         16 | 17 => format!("print(<%s>, {})", vars[r.below(vars.len())]),
-        18 => "nl".to_string(),
+        18 => if r.below(2) == 0 { "nl".to_string() } else if r.below(2) == 0 { format!("count([{}, {}], {})", rand_arg(r, vars), rand_arg(r, vars), vars[r.below(vars.len())]) }
+              else { format!("append({}, [{}], {})", rand_arg(r, vars), rand_arg(r, vars), vars[r.below(vars.len())]) },
         _ => if depth == 0 {
                  // one level of parentheses only: a group inside a group trips the tokenizer (`((a, b); c)` is rejected with
                  // "Unbalanced parentheses", `((a), b), c` duplicates a goal: DESIGN.md 8.22 / 8.25 - parenthesised groups are
@@ -342,6 +346,8 @@ fn prog_cases(seed: u64, mode: &str, cuts: bool, n: usize, need: &str) -> Vec<St
     }
     out
 }
+pub fn enum_prog_answers(seed: u64) -> Vec<String> { prog_cases(seed + 4000, "answers", false, 3000, "") }
+pub fn enum_prog_solve_all(seed: u64) -> Vec<String> { prog_cases(seed + 5000, "solveall", false, 1500, "") }
 pub fn enum_prog_reask(seed: u64) -> Vec<String> { prog_cases(seed, "reask", true, 3000, "") }
 pub fn enum_prog_cut(seed: u64) -> Vec<String> { prog_cases(seed + 1000, "answers", true, 2000, "!") }
 pub fn enum_prog_not(seed: u64) -> Vec<String> { prog_cases(seed + 2000, "answers", false, 2000, "not(") }
@@ -392,6 +398,28 @@ pub fn check_program(case: &str) -> Result<(), String> {
         if !exhausted { crate::skip(); return Ok(()); }
         if !late.is_empty() { return Err(format!("`{}` reported no more answers after {} answer(s), then answered {:?}; program: {}", q, got.len(), late, show())); }
         if !late_out.is_empty() { return Err(format!("`{}` reported no more answers after {} answer(s); the requests after that wrote {:?}; program: {}", q, got.len(), late_out, show())); }
+        return Ok(());
+    }
+    if mode == "solveall" {
+        // solve_all(): the same answers, each as `$Var = value, ..` for the variables among the query's arguments, in argument order
+        let qv = match &query { Goal::ComplexGoal(Unifiable::SComplex(ts)) => ts.clone(), _ => return Err("setup".into()) };
+        let mut want: Vec<String> = vec![];
+        for a in &expected {
+            // a is the query with its variables replaced: take it apart again
+            let at = match parse_complex(a) { Ok(Unifiable::SComplex(ts)) => ts, _ => { crate::skip(); return Ok(()); } };
+            let mut parts2 = vec![];
+            for i in 1..qv.len() { if let Unifiable::LogicVar { name, .. } = &qv[i] { parts2.push(format!("{} = {}", name, at[i])); } }
+            want.push(parts2.join(", "));
+        }
+        let query2 = parse_query(q).map_err(|e| format!("setup: {}", e))?;
+        let sn = make_base_node(Rc::new(query2), &kb);
+        let cap = Capture::start("sa");
+        let got_all = solve_all(sn);
+        let _ = cap.end();
+        if got_all.iter().any(|x| x.starts_with("Query timed out")) { crate::skip(); return Ok(()); }
+        let g2: Vec<String> = got_all.iter().map(|x| crate::o_ref::normalise(x)).collect();
+        let w2: Vec<String> = want.iter().map(|x| crate::o_ref::normalise(x)).collect();
+        if g2 != w2 { return Err(format!("`{}`: solve_all reports {:?}, depth-first resolution gives {:?}; program: {}", q, got_all, want, show())); }
         return Ok(());
     }
     // mode answers: against the reference interpreter (answers and output)
